@@ -172,7 +172,7 @@ theorem rollback_multistore (hH : HashOK H) (S : Tree → Prop) (hi : Inj H S) (
           t₁.version = t₂.version ∧ t₁.root = t₂.root) ∧
       -- hides later
       (∀ v : Int, (h : Int) < v → loadMS H back.disk names v = none) := by
-  obtain ⟨s0, h0, g0⟩ := openMS_fresh_good (H := H) S names hnd
+  obtain ⟨s0, h0, g0⟩ := openMS_fresh_good hH S hi names hnd
   obtain ⟨s, hrun, g⟩ := runMS_canon hH hi blocks _ 0 s0 g0 hb
   simp only [Nat.zero_add] at g
   have gd := g.disk
